@@ -215,7 +215,7 @@ class Force(_Base):
         return out
 
     def bounds(self, tier):
-        return "(ploidy, alleles, positions) in %s: threaded allele per haplotype and position solver-chosen from {-1, 0..alleles-1}, genotype = solver-chosen allele subset with symbolic multiplicities summing to the ploidy, threads through one or two clusters (solver-chosen pattern), arbitrary likelihood per candidate permutation" % sorted({(s["ploidy"], s["alleles"], s["positions"]) for s in self.shapes(tier)})
+        return "(ploidy, alleles, positions) in %s: threaded allele per haplotype and position solver-chosen from {-1, 0..alleles-1}, genotype = solver-chosen allele subset with symbolic multiplicities summing to the ploidy, threads through one or two clusters (solver-chosen pattern; ploidy 3 x 3 alleles: two clusters only), arbitrary likelihood per candidate permutation" % sorted({(s["ploidy"], s["alleles"], s["positions"]) for s in self.shapes(tier)})
 
     def harness(self, e, shape, impl):
         K, A, N = shape["ploidy"], shape["alleles"], shape["positions"]
@@ -240,7 +240,7 @@ class Force(_Base):
             genos.append(g)
         path, cov_map, depths = [], [], []
         for pos in range(N):
-            pat = e.choice("path%d" % pos, ["one cluster", "alternating"])
+            pat = e.choice("path%d" % pos, ["one cluster", "alternating"] if K * A < 9 else ["alternating"])
             path.append([0] * K if pat == "one cluster" else [p % 2 for p in range(K)])
             cov_map.append([0, 1])
             # total depth identifies (position, cluster), observed depth the allele (see LikStub)
@@ -322,7 +322,7 @@ class Cuts(_Base):
     def shapes(self, tier):
         blocks = [(1,), (2,), (3,), (1, 2), (2, 1), (1, 1, 1)]
         if tier == "thorough":
-            blocks += [(4,), (2, 2), (1, 3), (3, 1)]
+            blocks += [(4,), (2, 2)]
         out = []
         for K in (2, 3):
             for b in blocks:
